@@ -79,12 +79,12 @@ Proof.
   - destruct (h_sp E C fault true (NGen (s_gen s)) h (next_gen s)) as [h1 s1] eqn:Es.
     apply h_sp_log in Es. cbn [next_gen s_txlog] in Es.
     destruct h1 as [e|]; [inversion H; subst; exact Es|].
-    destruct (body None s1) as [[[r0 l0] h0] s2] eqn:Eb. apply HB in Eb.
+    destruct (body h s1) as [[[r0 l0] h0] s2] eqn:Eb. apply HB in Eb.
     destruct r0.
     + inversion H; subst; congruence.
-    + destruct (h_sp E C fault false (NGen (s_gen s)) None (if fault (length (s_ops s2)) then flag_rb s2 else s2)) as [h2 s3] eqn:Er.
+    + destruct (h_sp E C fault false (NGen (s_gen s)) h (if fault (length (s_ops s2)) then flag_rb s2 else s2)) as [h2 s3] eqn:Er.
       apply h_sp_log in Er. inversion H; subst. rewrite Er. destruct (fault _); cbn; congruence.
-    + destruct (h_sp E C fault false (NGen (s_gen s)) None (if fault (length (s_ops s2)) then flag_rb s2 else s2)) as [h2 s3] eqn:Er.
+    + destruct (h_sp E C fault false (NGen (s_gen s)) h (if fault (length (s_ops s2)) then flag_rb s2 else s2)) as [h2 s3] eqn:Er.
       apply h_sp_log in Er. inversion H; subst. rewrite Er. destruct (fault _); cbn; congruence.
 Qed.
 
@@ -108,9 +108,7 @@ Proof.
     destruct r0.
     + destruct (run_body E C fault k h1 s1) as [[[r1 l1] h2] s2] eqn:Ek. apply IHk in Ek. inversion H; subst; congruence.
     + destruct chk; [inversion H; subst; exact En|].
-      match type of H with context [run_body E C fault k h1 ?sx] => set (s1' := sx) in * end.
-      destruct (run_body E C fault k h1 s1') as [[[r1 l1] h2] s2] eqn:Ek. apply IHk in Ek.
-      inversion H; subst. rewrite Ek. subst s1'. destruct o0 as [| | | |[|]]; cbn; exact En.
+      destruct (run_body E C fault k h1 s1) as [[[r1 l1] h2] s2] eqn:Ek. apply IHk in Ek. inversion H; subst; congruence.
     + destruct rcv; [|inversion H; subst; exact En].
       destruct (run_body E C fault k h1 s1) as [[[r1 l1] h2] s2] eqn:Ek. apply IHk in Ek. inversion H; subst; congruence.
   - destruct (h_sp E C fault true (NUser n) h s) as [h1 s1] eqn:Es. apply h_sp_log in Es.
